@@ -90,15 +90,10 @@ const resolveImport = (file_name: string, mod: string): string | undefined => {
   return result;
 };
 
-const fsCache: Record<string, string> = {};
+// read when a diagnostic is printed: in watch mode the file has changed since the last report
 const getRawLines = (fileName: string): string | undefined => {
-  if (fsCache[fileName]) {
-    return fsCache[fileName];
-  }
   try {
-    const rawLines = fs.readFileSync(fileName, "utf-8");
-    fsCache[fileName] = rawLines;
-    return rawLines;
+    return fs.readFileSync(fileName, "utf-8");
   } catch (e) {
     return undefined;
   }
